@@ -1,6 +1,6 @@
 (* C02 — catalog creation stores every input record exactly once, unchanged.
    Statements only; proofs are in Proofs/ChunksP.v and Proofs/WriterP.v. *)
-From Verif Require Import Prelude Chunks ChunksP Writer WriterP.
+From Verif Require Import Prelude Chunks ChunksP Writer WriterP PatchPath PatchPathP.
 From Coq Require Import Permutation.
 Open Scope nat_scope.
 
@@ -126,3 +126,31 @@ Example C02_concrete_precedence :
   /\ c02_matrix_case 5 2 true true [0;1;0;1;0] [1;0;1;0;1] (-1)%Z
        [ ((0, []), [(0, [0;2;4]); (1, [1;3])]); ((2, [1;0;3;2;5;4]), [(0, [1;3]); (1, [0;2;4])]) ] = 7.
 Proof. vm_compute. repeat split; reflexivity. Qed.
+
+(* ---------------- where a patch is stored: the folder names ---------------- *)
+(* get_id_from_patch_path inverts get_patch_path_from_id for EVERY cache directory string (whatever its parents are called)
+   and every id ... *)
+Theorem C02_patch_path_roundtrip : forall (dir : String.string) (n : nat), id_of_path (patch_path dir n) = Some n.
+Proof. exact id_roundtrip. Qed.
+Print Assumptions C02_patch_path_roundtrip.
+(* ... so two patches never share a folder ... *)
+Theorem C02_patch_path_injective : forall (dir : String.string) (i j : nat), patch_path dir i = patch_path dir j -> i = j.
+Proof. exact patch_path_inj. Qed.
+Print Assumptions C02_patch_path_injective.
+(* ... and the dictionary load_patches builds has exactly the stored ids as keys, in their order *)
+Theorem C02_reload_keys : forall (dir : String.string) (ids : list nat),
+  map (fun p => id_of_path p) (map (patch_path dir) ids) = map Some ids.
+Proof. exact load_keys. Qed.
+Print Assumptions C02_reload_keys.
+(* looking for "patch_<digits>" anywhere in the path string instead is wrong below a parent folder such as npatch_8 *)
+Theorem C02_patch_id_by_search_refuted : exists (dir : String.string) (n : nat), id_of_path_search (patch_path dir n) <> Some n.
+Proof. exact id_search_refuted. Qed.
+Print Assumptions C02_patch_id_by_search_refuted.
+Module C02_paths_example.
+Import Coq.Strings.String.
+Example C02_concrete_paths :
+  (patch_path "/data/npatch_8/x{a}" 12 = "/data/npatch_8/x{a}/patch_12" /\
+   id_of_path "/data/npatch_8/x{a}/patch_12" = Some 12 /\ id_of_path "/data/patch_3/meta.yml" = None /\
+   id_of_path "/data/patch_1_2" = None)%string.
+Proof. vm_compute. repeat split; reflexivity. Qed.
+End C02_paths_example.
